@@ -191,6 +191,12 @@ class DocTaint:
                 # (pos, obj) = parser.nextobject()
                 if isinstance(v, ast.Call) and (dotted(v.func) or "").split(".")[-1] in ("nextobject", "nexttoken"):
                     k = (None, "RAW")
+                elif len(t.elts) == 2 and (
+                    (isinstance(v, ast.Call) and (dotted(v.func) or "").split(".")[-1] == "_get_objects")
+                    or (isinstance(v, ast.Subscript) and (dotted(v.value) or "").endswith("._parsed_objs"))
+                ):
+                    # (objs, n) of an object stream: the token list of the payload (as long as the payload happens to be) and /N
+                    k = ("LIST", "NUM")
                 elif isinstance(v, (ast.Tuple, ast.List)) and len(v.elts) == len(t.elts):
                     for a, b in zip(t.elts, v.elts):
                         ch |= self._bind(a, b, False)
